@@ -9,3 +9,20 @@ func init() {
 		Assume: schedAssume,
 	}
 }
+
+func init() {
+	cfgs["C02"] = checkCfg{
+		Variant: "sched", Validate: true,
+		Stride: map[string]int{"quick": 50, "thorough": 25},
+		Budget: dur(150, 1500),
+		Rule:   "exhaustive enumeration of the shared program families plus the analyzer-defined domain (all syntactically valid small programs the real analyzer accepts) and a lattice of resource limits; every accepted program is run on both backends and must end in completion or an interrupt: never a Go panic, deadlock, livelock or poll-budget overrun; distinct = distinct (backend, observation) records",
+		Assume: schedAssume,
+	}
+	cfgs["C04"] = checkCfg{
+		Variant: "sched", Validate: true,
+		Stride: map[string]int{"quick": 50, "thorough": 25},
+		Budget: dur(150, 1500),
+		Rule:   "exhaustive enumeration of the shared program families restricted to the fragment both backends implement; pure differential oracle: same output, same outcome class and kind, same uncaught message on the tree-walking interpreter and on the VM; distinct = distinct VM observation records",
+		Assume: schedAssume,
+	}
+}
